@@ -222,10 +222,13 @@ func InitRoutes(table table.Interface, config Config, meta toml.MetaData) error 
 			// Note: toml library allows arbitrary casing of properties,
 			// and the map keys are these properties as specified by user
 			// so we can't look up directly
+			// the same goes for the numeric options: 0 may be what the user wrote
+			given := make(map[string]bool)
 			for _, routemeta := range routeMeta {
 				for k, v := range routemeta {
 					if strings.ToLower(k) == "key" && v == routeConfig.Key {
 						for k2, v2 := range routemeta {
+							given[strings.ToLower(k2)] = true
 							if strings.ToLower(k2) == "sslverify" {
 								cfg.SSLVerify = v2.(bool)
 							}
@@ -263,6 +266,31 @@ func InitRoutes(table table.Interface, config Config, meta toml.MetaData) error 
 			}
 			if routeConfig.ErrBackoffFactor != 0 {
 				cfg.ErrBackoffFactor = routeConfig.ErrBackoffFactor
+			}
+			// options written explicitly as 0 (all others were taken over above)
+			if given["bufsize"] && routeConfig.BufSize == 0 {
+				cfg.BufSize = 0
+			}
+			if given["flushmaxnum"] && routeConfig.FlushMaxNum == 0 {
+				cfg.FlushMaxNum = 0
+			}
+			if given["flushmaxwait"] && routeConfig.FlushMaxWait == 0 {
+				cfg.FlushMaxWait = 0
+			}
+			if given["timeout"] && routeConfig.Timeout == 0 {
+				cfg.Timeout = 0
+			}
+			if given["concurrency"] && routeConfig.Concurrency == 0 {
+				cfg.Concurrency = 0
+			}
+			if given["orgid"] && routeConfig.OrgId == 0 {
+				cfg.OrgID = 0
+			}
+			if given["errbackoffmin"] && routeConfig.ErrBackoffMin == 0 {
+				cfg.ErrBackoffMin = 0
+			}
+			if given["errbackofffactor"] && routeConfig.ErrBackoffFactor == 0 {
+				cfg.ErrBackoffFactor = 0
 			}
 
 			route, err := route.NewGrafanaNet(routeConfig.Key, matcher, cfg)
